@@ -157,4 +157,4 @@ def handleC12 (j : Json) : Except String Verdict := do
   | _ => return .bad s!"unknown kind {k}"
 
 def main (args : List String) : IO Unit :=
-  if args.contains "--xform" then xformLoop xform else runDriver handleC12
+  if args.contains "--xform" then xformLoop xform else runDriver (single handleC12)
